@@ -121,10 +121,12 @@ def _workdir():
 def conclude(mod, pid, tier, seed, nshards, results, wall):
     evaluations = sum(r["evaluations"] for r in results)
     nontrivial = set()
+    allcases = set()
     labels, counters, known, excluded = {}, {}, {}, {}
     samples, violations, herrs = [], [], []
     for r in results:
         nontrivial.update(r["nontrivial"])
+        allcases.update(r.get("allcases", []))
         for dst, src in ((labels, r["labels"]), (counters, r["counters"]), (known, r["known"]), (excluded, r["excluded"])):
             for k, v in src.items():
                 dst[k] = dst.get(k, 0) + v
@@ -176,6 +178,7 @@ def conclude(mod, pid, tier, seed, nshards, results, wall):
         "coverage": {
             "evaluations": evaluations,
             "distinct_nontrivial": len(nontrivial),
+            "distinct_cases": len(allcases),
             "rule": mod.RULE,
             "samples": samples,
             "generated": sum(r["generated"] for r in results),
